@@ -234,6 +234,31 @@ def run(chk, solver_agreement_only=False):
                     if not ok:
                         oracle_bad.append(dict(op=f"{op_} with structured coordinates (time, band) [{sname_}]", n=n_, t=tb.tolist(), band=band.tolist(),
                                                y=yb.tolist(), expected=float(want_s), observed=v_))
+    if not solver_agreement_only:
+        # single precision: all-float32 models evaluated with 64-bit types switched off (jax.enable_x64(False)), as a float32 user runs them;
+        # the same density to single-precision accuracy, for every solver accepting the model
+        import jax
+        import jax.numpy as jnp
+        from tinygp import GaussianProcess
+        from tinygp.solvers import DirectSolver as _DS, QuasisepSolver as _QS
+        from tinygp.solvers.kalman import KalmanSolver as _KS
+        for kname_, mk_, kfun_, x32, dg32, mu32, y32, _xt32, fam32 in gpcases.float32_models(np.random.default_rng(chk.seed + 32)):
+            K32 = kfun_(x32[:, None], x32[None, :]) + dg32 * np.eye(len(x32))
+            want32 = oracle_logp(K32, y32 - mu32)
+            for sname_, scls_ in (("direct", _DS),) + ((("quasisep", _QS), ("kalman", _KS)) if fam32 == "quasisep" else ()):
+                hist["float32/" + sname_] = hist.get("float32/" + sname_, 0) + 1
+                try:
+                    with jax.enable_x64(False):
+                        f32 = jnp.float32
+                        g32 = GaussianProcess(mk_(f32), jnp.asarray(x32, f32), diag=jnp.asarray(dg32, f32), mean=jnp.asarray(mu32, f32), solver=scls_)
+                        r32 = g32.log_probability(jnp.asarray(y32, f32))
+                        v32, dt32 = float(r32), str(r32.dtype)
+                except Exception as e:  # noqa: BLE001
+                    oracle_bad.append(dict(op=f"log_probability in float32 [{sname_}]", kernel=kname_, n=len(x32), observed=f"raised {type(e).__name__}: {str(e)[:80]}", expected=float(want32)))
+                    continue
+                if not abs(v32 - want32) <= 5e-4 * max(1.0, abs(want32)):
+                    oracle_bad.append(dict(op=f"log_probability in float32 [{sname_}]", kernel=kname_, n=len(x32), x=x32.tolist(), y=y32.tolist(), dtype=dt32,
+                                           expected=float(want32), observed=v32))
     # solver interchangeability (C03): every solver that accepts the model reports the same value
     for c in cases:
         vals = {s: e["logp"] for s, e in c["solvers"].items()}
